@@ -41,6 +41,9 @@ theorem sds_rate_exact (sr k : Nat) (h1 : 477 ≤ sr) (h : 1000000000 = sr * k) 
   have : 1000000000 / sr = k := by rw [h]; exact Nat.mul_div_cancel_left k (by omega)
   rw [this, h]; exact Nat.mul_div_cancel _ hk
 
+example : quant 44100 = 1000000000 / (1000000000 / 44100) ∧ 44100 ≤ quant 44100 ∧ quant 31250 = 31250 ∧ 1000000000 = 31250 * 32000 ∧
+    period 477 = 2096436 ∧ period 477 < 2 ^ 21 := by decide +kernel
+
 /-- outside the field: below 477 Hz the period loses its high bits (1 Hz reads back as 569 Hz, 250 Hz as 525 Hz, 476 Hz as 271149 Hz),
     above 1 GHz it is 0 and the reader guesses 16000 -/
 theorem sds_rate_outside : quant 1 = 569 ∧ quant 250 = 525 ∧ quant 476 = 271149 ∧ quant 477 = 477 ∧ quant 1000000001 = 16000 ∧
@@ -53,6 +56,9 @@ theorem sds_rate_outside : quant 1 = 569 ∧ quant 250 = 525 ∧ quant 476 = 271
 theorem stale_frames_ignored_sds (c : Cfg) (a b : Nat) (ops : List WOp) :
     closedBytes c a ops = closedBytes c b ops ∧ snapshotBytes c a ops = snapshotBytes c b ops ∧ (openW c a).bytes = (openW c b).bytes :=
   ⟨rfl, rfl, rfl⟩
+
+example : closedBytes ⟨2, 44100⟩ 0 [.write [1, 2, 3] true, .update] = closedBytes ⟨2, 44100⟩ 99999 [.write [1, 2, 3] true, .update] ∧
+    (openW ⟨2, 44100⟩ 7).bytes = header 16 44100 0 := by decide +kernel
 
 /-- **sds_updates_dont_change_file** (C07 / C11).  However the samples are split over write calls, with or without
     auto header mode, with any number of SFC_UPDATE_HEADER_NOW in between — each of which writes the partly filled
